@@ -52,13 +52,13 @@ func isWork(in ssa.Instruction) bool {
 		}
 		if x.Call.IsInvoke() {
 			t := x.Call.Value.Type().String()
-			if strings.Contains(t, "Logger") || strings.Contains(t, "logr.") {
+			if isLoggerName(t) {
 				return false
 			}
 			return true
 		}
 		cn := core.CalleeName(&x.Call)
-		if strings.Contains(cn, "Logger") || strings.HasPrefix(cn, "fmt.") || strings.HasPrefix(cn, "strings.") || strings.HasPrefix(cn, "strconv.") || strings.HasPrefix(cn, "(*k8s.io/klog") || strings.HasPrefix(cn, "k8s.io/klog") || strings.HasPrefix(cn, "(github.com/go-logr") || strings.HasPrefix(cn, "reflect.") || strings.HasPrefix(cn, "time.") || strings.HasPrefix(cn, "(time.") || strings.HasPrefix(cn, "errors.") || strings.HasPrefix(cn, "sort.Search") {
+		if isLoggerName(cn) || strings.HasPrefix(cn, "fmt.") || strings.HasPrefix(cn, "strings.") || strings.HasPrefix(cn, "strconv.") || strings.HasPrefix(cn, "(*k8s.io/klog") || strings.HasPrefix(cn, "k8s.io/klog") || strings.HasPrefix(cn, "(github.com/go-logr") || strings.HasPrefix(cn, "reflect.") || strings.HasPrefix(cn, "time.") || strings.HasPrefix(cn, "(time.") || strings.HasPrefix(cn, "errors.") || strings.HasPrefix(cn, "sort.Search") {
 			return false
 		}
 		return true
@@ -315,10 +315,14 @@ func SkipsAll(env *core.Env) map[string][]string {
 		if !in {
 			continue
 		}
-		if rows := SkipRows(fn); len(rows) > 0 {
+		{
+			rows := SkipRows(fn)
 			root := fn
 			for root.Parent() != nil {
 				root = root.Parent()
+			}
+			if _, ok := out[core.FuncName(root)]; !ok {
+				out[core.FuncName(root)] = []string{} // listed even without rows: a function that gains its first row is not a new function
 			}
 			pre := ""
 			if root != fn {
@@ -346,7 +350,8 @@ type skipGroup struct {
 
 var skipGroups = []skipGroup{
 	{"skips-model-files", []string{"C05"}, []string{"haproxy", "haproxy/types", "haproxy/template", "haproxy/socket"}, "the model containers, the dynamic updater and the writers of pkg/haproxy"},
-	{"skips-converter", []string{"C01"}, []string{"converters", "converters/ingress", "converters/utils", "converters/configmap", "converters/tracker"}, "the Ingress converter, its helpers and the tracker"},
+	{"skips-model-types", []string{"C01", "C04", "C06", "C07", "C03"}, []string{"haproxy/types"}, "the model containers, map builders and comparators of pkg/haproxy/types (upstream of everything that is written)"},
+	{"skips-converter", []string{"C01", "C03", "C06", "C07", "C08", "C11", "C15"}, []string{"converters", "converters/ingress", "converters/utils", "converters/configmap", "converters/tracker"}, "the Ingress converter, its helpers and the tracker"},
 	{"skips-gateway", []string{"C10", "C16", "C03", "C01"}, []string{"converters/gateway"}, "the Gateway API converter"},
 	{"skips-annotations", []string{"C18", "C19", "C16", "C09", "C15", "C03", "C11", "C02", "C07", "C01", "C17"}, []string{"converters/ingress/annotations"}, "the annotation updater"},
 	{"skips-acme", []string{"C17"}, []string{"acme"}, "the acme signer and client"},
@@ -359,7 +364,7 @@ func init() {
 	for _, g := range skipGroups {
 		g := g
 		for _, p := range g.props {
-			addRule(p, &core.Rule{ID: p + "." + g.suffix, Floor: 5, Run: func(c *core.Ctx) { skipTableRule(c, g) },
+			addRule(p, &core.Rule{ID: p + "." + g.suffix, Floor: 1, Late: true, Run: func(c *core.Ctx) { skipTableRule(c, g) },
 				Doc: "Skip table of " + g.what + ": for every function, (a) the conditions under which a branch ends the function or the current loop iteration without any effect while its other edge leads to effects (`continue`, early `return`, the implicit else of a trailing `if`), (b) the returns that can be reached before a `defer` was registered, and (c) the effects (calls, stores) that every completed iteration of a loop performs, equal the table generated from the reviewed tree (rules/skips_gen.go). An added shortcut (`if len(x) == 0 { continue }`, `if !changed { return }`), a cleanup registered one statement too late, or a statement moved behind a `continue` changes exactly these rows."})
 		}
 	}
@@ -379,6 +384,15 @@ func skipTableRule(c *core.Ctx, g skipGroup) {
 	for _, f := range c.SrcFuncs() {
 		byName[core.FuncName(f)] = f
 	}
+	// Under the properties the group is registered for, every function of its packages is compared. Under a
+	// property that only inherits the rule from an upstream layer, the comparison is limited to the functions
+	// that property's own (hand-written) rules anchor: the code that implements it.
+	home := false
+	for _, p := range g.props {
+		if strings.HasPrefix(c.RuleID(), p+".") {
+			home = true
+		}
+	}
 	n := 0
 	names := map[string]bool{}
 	for k := range skipGenTable {
@@ -391,7 +405,13 @@ func skipTableRule(c *core.Ctx, g skipGroup) {
 		if !inGroup(fnName) {
 			continue
 		}
+		if !c.Anchored(fnName) {
+			continue
+		}
 		want, listed := skipGenTable[fnName]
+		if !listed {
+			continue // a function the reviewed tree did not have: it changes behaviour only through a caller, whose rows change
+		}
 		have := got[fnName]
 		fn := byName[fnName]
 		site := ""
@@ -423,5 +443,5 @@ func skipTableRule(c *core.Ctx, g skipGroup) {
 		c.Check(len(missing) == 0 && len(extra) == 0, fnName+": skips, cleanups and per-iteration effects are the reviewed ones", site, fmt.Sprintf("%d rows", len(want)),
 			"rows that disappeared: ["+clip(strings.Join(missing, " ; "), 500)+"]; new rows: ["+clip(strings.Join(extra, " ; "), 500)+"] — an element, an iteration or an exit now bypasses (or no longer bypasses) the work of the function")
 	}
-	c.Check(n >= 5, "functions compared with the skip table ("+g.suffix+")", "", fmt.Sprintf("%d functions", n), fmt.Sprintf("%d functions", n))
+	c.Check(n >= 1 || !home, "functions compared with the skip table ("+g.suffix+")", "", fmt.Sprintf("%d functions", n), fmt.Sprintf("%d functions", n))
 }
